@@ -10,7 +10,7 @@ git apply "$patch" || { echo "patch does not apply"; exit 2; }
 trap 'git -C /repo checkout -- . ; git -C /repo clean -fdq' EXIT
 cd /verif
 for id in "$@"; do
-  out=$(VERIF_NO_EVIDENCE=1 bin/vcheck "$id" --tier "$tier" 2>/dev/null)
+  out=$(VERIF_NO_EVIDENCE=1 bin/vcheck "$id" --tier "$tier" ${JOBS:+--jobs "$JOBS"} 2>/dev/null)
   code=$?
   echo "== $id exit=$code"
   echo "$out" | grep -E "^(VIOLATION|KNOWN-FINDING|ERROR|C[0-9]+ tier)" | head -8
